@@ -328,3 +328,178 @@ func RetVals(r *ssa.Return) []ssa.Value {
 	}
 	return out
 }
+
+// ReachOpt is Reach with an additional filter on branch edges: an edge for
+// which skipEdge returns true is not followed.  fromEdge, when non-nil,
+// starts the walk at the first instruction of that successor instead of after
+// the start instructions.
+func (fi *FnInfo) ReachOpt(starts []ssa.Instruction, stop func(ssa.Instruction) bool, skipEdge func(i *ssa.If, k int) bool) (visited, stopped map[ssa.Instruction]bool) {
+	visited = map[ssa.Instruction]bool{}
+	stopped = map[ssa.Instruction]bool{}
+	succ := func(in ssa.Instruction) []ssa.Instruction {
+		if i, ok := in.(*ssa.If); ok && skipEdge != nil {
+			var out []ssa.Instruction
+			for k, s := range i.Block().Succs {
+				if skipEdge(i, k) {
+					continue
+				}
+				if len(s.Instrs) > 0 {
+					out = append(out, s.Instrs[0])
+				}
+			}
+			return out
+		}
+		return Succ(in)
+	}
+	var work []ssa.Instruction
+	for _, s := range starts {
+		work = append(work, succ(s)...)
+	}
+	for len(work) > 0 {
+		in := work[len(work)-1]
+		work = work[:len(work)-1]
+		if visited[in] || stopped[in] {
+			continue
+		}
+		if stop != nil && stop(in) {
+			stopped[in] = true
+			continue
+		}
+		visited[in] = true
+		work = append(work, succ(in)...)
+	}
+	return
+}
+
+// Ifs lists the If instructions of the function.
+func (fi *FnInfo) Ifs() []*ssa.If {
+	var out []*ssa.If
+	for _, b := range fi.Fn.Blocks {
+		if len(b.Instrs) > 0 {
+			if i, ok := b.Instrs[len(b.Instrs)-1].(*ssa.If); ok {
+				out = append(out, i)
+			}
+		}
+	}
+	return out
+}
+
+// LoopBlocks returns the blocks of the natural cycle through b (blocks that b
+// can reach and that can reach b), or nil when b is not in a loop.
+func (fi *FnInfo) LoopBlocks(b *ssa.BasicBlock) map[*ssa.BasicBlock]bool {
+	fwd := map[*ssa.BasicBlock]bool{}
+	var stack []*ssa.BasicBlock
+	stack = append(stack, b.Succs...)
+	for len(stack) > 0 {
+		x := stack[len(stack)-1]
+		stack = stack[:len(stack)-1]
+		if fwd[x] {
+			continue
+		}
+		fwd[x] = true
+		stack = append(stack, x.Succs...)
+	}
+	if !fwd[b] {
+		return nil
+	}
+	bwd := map[*ssa.BasicBlock]bool{}
+	stack = append(stack, b.Preds...)
+	for len(stack) > 0 {
+		x := stack[len(stack)-1]
+		stack = stack[:len(stack)-1]
+		if bwd[x] {
+			continue
+		}
+		bwd[x] = true
+		stack = append(stack, x.Preds...)
+	}
+	out := map[*ssa.BasicBlock]bool{}
+	for x := range fwd {
+		if bwd[x] {
+			out[x] = true
+		}
+	}
+	return out
+}
+
+// Feasible checks the dominating integer comparisons at `at` for a
+// contradiction on identical (resolved) SSA values: engine E6.  It returns
+// false together with the contradicting expression descriptor.
+func (fi *FnInfo) Feasible(at ssa.Instruction) (bool, string) {
+	type rng struct {
+		lo, hi int64
+		ne     map[int64]bool
+	}
+	m := map[ssa.Value]*rng{}
+	for _, f := range fi.Facts(at) {
+		c, ok := DecodeIntCmp(f.Cond)
+		if !ok {
+			continue
+		}
+		e := Resolve(c.Expr)
+		r := m[e]
+		if r == nil {
+			r = &rng{lo: NegInf, hi: PosInf, ne: map[int64]bool{}}
+			m[e] = r
+		}
+		// the fact: comparison is f.Truth
+		lo, hi := c.TrueSet.Lo, c.TrueSet.Hi
+		positive := f.Truth != c.NotEq // value lies inside [lo,hi]
+		if positive {
+			if lo > r.lo {
+				r.lo = lo
+			}
+			if hi < r.hi {
+				r.hi = hi
+			}
+		} else {
+			// value lies outside [lo,hi]
+			switch {
+			case lo == NegInf && hi == PosInf:
+				r.lo, r.hi = 1, 0
+			case lo == NegInf:
+				if hi+1 > r.lo {
+					r.lo = hi + 1
+				}
+			case hi == PosInf:
+				if lo-1 < r.hi {
+					r.hi = lo - 1
+				}
+			case lo == hi:
+				r.ne[lo] = true
+			}
+		}
+	}
+	for e, r := range m {
+		for r.lo <= r.hi && r.ne[r.lo] {
+			r.lo++
+		}
+		for r.lo <= r.hi && r.ne[r.hi] {
+			r.hi--
+		}
+		if r.lo > r.hi {
+			return false, fi.P.Desc(e)
+		}
+	}
+	return true, ""
+}
+
+// FactsOnEdge lists the branch outcomes known when control flows from pred to
+// its successor succ: the facts dominating pred's terminator plus, when pred
+// ends in an If, the outcome of that very branch.
+func (fi *FnInfo) FactsOnEdge(pred, succ *ssa.BasicBlock) []Fact {
+	if len(pred.Instrs) == 0 {
+		return nil
+	}
+	last := pred.Instrs[len(pred.Instrs)-1]
+	out := fi.Facts(last)
+	if i, ok := last.(*ssa.If); ok && pred.Succs[0] != pred.Succs[1] {
+		for k := 0; k < 2; k++ {
+			if pred.Succs[k] == succ {
+				c, t := StripNot(i.Cond, k == 0)
+				out = append(out, Fact{If: i, Cond: c, Truth: t})
+			}
+		}
+	}
+	return out
+}
